@@ -245,6 +245,14 @@ def check_strings(ctx, thorough):
     for _ in range(3000 if thorough else 250):
         cases.append(''.join(rng.choice(alpha) for _ in range(rng.randint(1, 12))))
     for s in cases:
+        if '\\' not in s and s.strip():
+            # the same text is also the name of a routine: a quoted string is still a string
+            ident = s if s.isidentifier() and s not in DOC_KEYWORDS + UNDOC + REGS + list(ABBR) + BUILTINS else 'zq_r'
+            text = 'define %s begin hue 1 end define mm "%s" print mm' % (ident, ident)
+            ctx.count()
+            p, e = lang.compile_script(text)
+            if p is None:
+                ctx.counterexample('C16/string-equal-to-routine-name', 'a quoted string equal to the name of a routine is not accepted as a value: %s' % e.strip()[:80], {'text': text})
         for text, expect, tag in [('print "%s"' % s, ['O|' + lang.show_val(s)], 'alone'),
                                   ('assign v "%s" print v print "z"' % s, ['O|' + lang.show_val(s), 'O|' + lang.show_val('z')], 'followed-by-string')]:
             ctx.count()
@@ -325,7 +333,10 @@ def run(ctx):
                  ('define f with a begin return {a*2} end hue [f 1]', 'define f with a begin return { a * 2 } end hue [ f 1 ]'),
                  ('if{1<2}begin hue 1 end', 'if { 1 < 2 } begin hue 1 end'), ('assign x 5 if{x>=5}hue 1 else hue 2', 'assign x 5 if { x >= 5 } hue 1 else hue 2'),
                  ('hue{1!=2}', 'hue { 1 != 2 }'), ('hue {-5}', 'hue { - 5 }'), ('H 5 S 6 B 7 K 8', 'hue 5 saturation 6 brightness 7 kelvin 8'),
-                 ('hue 5#comment', 'hue 5'), ('hue {5-3}', 'hue {5 - 3}'), ('hue {5/3}', 'hue {5 / 3}')]:
+                 ('hue 5#comment', 'hue 5'),
+                 ('define f with a begin print a end define g [f 1] g', 'define f with a begin print a end define g f 1 g'),
+                 ('define f begin print 1 end define g [f] [g]', 'define f begin print 1 end define g f g'),
+                 ('hue {(5)}', 'hue {{5}}'), ('assign x 2 hue {2 * (x + 1)}', 'assign x 2 hue {2 * {x + 1}}'), ('hue {5-3}', 'hue {5 - 3}'), ('hue {5/3}', 'hue {5 / 3}')]:
         ctx.count()
         ka, _ = compile_key(a)
         kb, _ = compile_key(b)
